@@ -12,7 +12,12 @@ def related_labels(rng, kind, base, how):
     uni = {"i": list(range(-2, 12)), "f": [Fraction(k, 4) for k in range(-6, 40)], "O": gen.STRS}[kind]
     uni = [gen.enc(v) for v in uni]
     others = [u for u in uni if u not in base]
-    if how == "equal":
+    if how == "nearly" and kind == "f" and base:
+        # pairwise almost equal (far inside np.allclose's tolerance) but different labels: still a union of both
+        out = list(base)
+        for i in rng.sample(range(len(out)), rng.randint(1, len(out))):
+            out[i] = gen.enc(Fraction(out[i][1], out[i][2]) + Fraction(1, 2 ** 40))
+    elif how in ("equal", "nearly"):
         out = list(base)
     elif how == "empty":
         out = []
@@ -53,7 +58,7 @@ def gen_arrays(rng, n=None, maxrank=3, allow_empty=True, same_dims=False, minn=0
         dims = dims[:maxrank]
         axes = []
         for d in dims:
-            how = rng.choice(["equal", "overlapping", "nested", "disjoint", "overlapping"] + (["empty"] if allow_empty and rng.random() < 0.3 else []))
+            how = rng.choice(["equal", "overlapping", "nested", "disjoint", "overlapping", "nearly"] + (["empty"] if allow_empty and rng.random() < 0.3 else []))
             labels = related_labels(rng, kinds[d], bases[d], how)
             if len(labels) < minn:
                 labels = list(bases[d])
